@@ -148,6 +148,18 @@ def gen_columnar(items):
         return (f'/-- extracted from {oi}::is_sparse -/\n'
                 f'def is_sparse (num_rows_in_block : Nat) : Bool := decide (num_rows_in_block {op} DENSE_BLOCK_THRESHOLD)')
     items.append(is_sparse)
+    def range_guard():
+        # does transform_range_before_linear_transformation refuse a query range that lies entirely
+        # below the column minimum (`if *range.end() < stats.min_value { return None; }`)?
+        bpk = 'columnar/src/column_values/u64_based/bitpacked.rs'
+        body = fn_body(bpk, 'transform_range_before_linear_transformation')
+        if not re.search(r'range\.is_empty\(\)', body) or 'saturating_sub(stats.min_value)' not in body:
+            raise Fail(f'{bpk}: transform_range_before_linear_transformation outside the modelled shape')
+        g = re.search(r'if\s+\*range\.end\(\)\s*<\s*stats\.min_value\s*\{\s*return\s+None\s*;\s*\}', body)
+        return (f'/-- extracted from {bpk}::transform_range_before_linear_transformation: is a query range below '
+                f'the column minimum refused? -/\n'
+                f'def RANGE_BELOW_MIN_GUARD : Bool := {"true" if g else "false"}')
+    items.append(range_guard)
     def serialized_meta():
         return D('SERIALIZED_BLOCK_META_NUM_BYTES', const(oi, 'SERIALIZED_BLOCK_META_NUM_BYTES'), oi)
     items.append(serialized_meta)
